@@ -209,6 +209,10 @@ def run(run):
     run.extra["edge_permutations"] = nperm
     judge(run, cases, descs)
     run.cov["exhaustive"] = not quick
+    # the public conversion of an explicit path handed in as `optimize` (linear -> itself, edge path -> linear) must not depend
+    # on which kind of explicit path this process converted before (driver shared with C13)
+    from . import c13
+    c13.dispatch_memo(run, ct, rng, 8 if quick else 80)
     run.cov["rule"] = ("every pairwise linear path for N<=5 (emitted by TLC from MC_Paths; quick: all N<=4 + 40 of N=5) and every path "
                        "with single-tensor / three-way steps for N<=4 (MC_PathsGen; quick: 500 sampled) x converters, "
                        "tree constructors and emitters under 7 traversal orders; every permutation of the indices (<=5) of small "
